@@ -278,8 +278,8 @@ def _check_schedule(case, ctx):
                     newv = cache[si][t][0][ci] if op == "write_same" else 100 + step * 3 + k
                     setattr(objs[si][t], cols[ci], newv)
                     if newv != cache[si][t][0][ci]:
-                        changed.append((t, cache[si][t][0][:ci] + (newv,) + cache[si][t][0][ci + 1:]))
-                stale = [t for t, _ in changed if is_stale(si, t)]
+                        changed.append((t, ci, newv))
+                stale = [t for t, _ci, _nv in changed if is_stale(si, t)]
                 try:
                     sess.flush()
                     got = None
@@ -302,13 +302,18 @@ def _check_schedule(case, ctx):
                         drop_all(si)
                     else:
                         sess.commit()
-                        for t, newv in changed:
+                        for t, ci, newv in changed:
                             newver = gen(cache[si][t][1])
-                            db[t] = (newv, newver)
-                            cache[si][t] = db[t]
+                            # only the changed column is in the UPDATE: the other columns of the TABLE keep what is stored there (which, after a
+                            # delete + re-insert at the same version number - the accepted ABA case - is not what this session holds), while the
+                            # SESSION keeps its own copy of them
+                            put = lambda vals: vals[:ci] + (newv,) + vals[ci + 1:]  # noqa: E731
+                            db[t] = (put(db[t][0]), newver)
+                            cache[si][t] = (put(cache[si][t][0]), newver)
                             o = objs[si][t]
-                            if view(o) != db[t]:
-                                raise Violation(f"C44/{op}/in-memory-version", f"{where}: after commit object holds {view(o)}, stored {db[t]}", observed=str(view(o)), expected=str(db[t]))
+                            if view(o) != cache[si][t]:
+                                raise Violation(f"C44/{op}/in-memory-version", f"{where}: after commit object holds {view(o)}, expected {cache[si][t]} (stored version {db[t][1]})",
+                                                observed=str(view(o)), expected=str(cache[si][t]))
             elif op == "delete":
                 ensure_loaded(si, rid)
                 if rid not in cache[si]:
